@@ -187,6 +187,7 @@ VerifyFails(e) ==
           \cup F((pt.status = "ok" /\ cb.ret = 0 /\ AdmitDefined(cb.cfg.alg, cb.cfg.key) /\ ~Admit("checker", cb.cfg.alg, cb.cfg.key)) => e.ret # 0, "C19.admit")
         ELSE {})
   \cup (IF On("C12") /\ Has(e, "cmp") /\ e.cmp \in DOMAIN memo THEN F((memo[e.cmp] = 0) <=> (e.ret = 0), "C12.verdict") ELSE {})
+  \cup (IF On("C12") /\ e.tok.src = "slot" THEN F(ref = "accept" => e.ret = 0, "C12.accept") ELSE {})      \* each accepts the other's signatures
   \cup (IF On("C15") /\ ck.hascb /\ Has(e, "cbres") /\ pt.status = "ok"
         THEN CbFails([hdr |-> pt.hdr, clm |-> pt.clm, cfg |-> [alg |-> ck.alg, key |-> ck.key], ret |-> 0, touched |-> FALSE], ck.cb, e.cbres, 1)
         ELSE {})
@@ -215,6 +216,7 @@ GenerateFails(e) ==
                    /\ e.thdr = e.fresh.thdr /\ e.tclm = e.fresh.tclm /\ e.talg = e.fresh.talg
                    /\ (e.talg \in HSAlgs \cup RSAlgs \cup EdAlgs \cup {"none"} => e.tokdig = e.fresh.tokdig), "C13.generate.tok")
         ELSE {})
+  \cup (IF On("C12") THEN F(P_GenSig(b, now, rings, ops, g), "C12.gensig") ELSE {})        \* the token carries the CURRENT key's signature
   \cup (IF On("C12") /\ Has(e, "cmp") /\ e.cmp \in DOMAIN memo THEN F(memo[e.cmp] = (IF e.ret = "tok" THEN e.tokdig ELSE "null"), "C12.token") ELSE {})
   \cup (IF On("C15") /\ b.hascb /\ Has(e, "cbres")
         THEN CbFails([hdr |-> b.hdr, clm |-> GenClaims(b, now), cfg |-> GenCfg0(b), ret |-> 0, touched |-> FALSE], b.cb, e.cbres, 1)
@@ -289,7 +291,10 @@ CodecBatchFails(e) ==
 (* allocation faults (C17): result of an operation in a run with one       *)
 (* failing allocation vs the same operation in the fault-free run          *)
 (***************************************************************************)
-ErrFlags(items) == [i \in DOMAIN items |-> <<items[i].err, items[i].kid, items[i].kty, items[i].bits>>]
+\* an item imported under a fault is the item imported without it: flags, metadata and the projected key material
+\* (PEM present and parseable, public and private components equal to the key that was exported)
+ErrFlags(items) == [i \in DOMAIN items |-> <<items[i].err, items[i].kid, items[i].kty, items[i].bits, items[i].alg, items[i].priv,
+                                              IF items[i].err = 0 THEN items[i].mat ELSE <<>> >>]
 SameRes(e, b) ==
   CASE e.e = "Load" -> e.retnull = b.retnull /\ (e.retnull = 0 => (e.seterr = b.seterr /\ e.count = b.count /\ ErrFlags(e.new) = ErrFlags(b.new)))
     [] e.e \in {"CNew", "BNew"} -> e.ok = b.ok
